@@ -90,7 +90,9 @@ type KernelResult struct {
 	Stats   *engine.Stats
 	Fatal   []string
 	Sample  []string
-	mu      sync.Mutex
+	// PassSamples: models of a few passing paths, replayed natively as translator validation
+	PassSamples []*Counterexample
+	mu          sync.Mutex
 }
 
 // pathState is Run.User for Layer A.
@@ -313,7 +315,18 @@ func (s *Session) Run(k Kernel) *KernelResult {
 		if cr.Panic == nil {
 			np.Proved++
 		}
+		want := cr.Panic == nil && len(res.PassSamples) < 3 && k.E2E == "" && len(ps.Nondets) > 0
 		res.mu.Unlock()
+		if want {
+			if m, ok := r.Witness(nil); ok {
+				ce := env.counterexample(r, ps, "pass", "pass", "passing path (translator validation)", m)
+				res.mu.Lock()
+				if len(res.PassSamples) < 3 {
+					res.PassSamples = append(res.PassSamples, ce)
+				}
+				res.mu.Unlock()
+			}
+		}
 		if cr.Panic != nil {
 			key := cr.Panic.Kind + "@" + shortPos(s.Repo, cr.Panic.Pos)
 			m, _ := r.Witness(nil)
